@@ -397,6 +397,66 @@ fn c19_batches(tier: &str) -> Vec<Batch> {
     ]
 }
 
+fn exec_c15(p: &Profile, cfg: &RunCfg) -> (RunOut, MonOut) {
+    let (out, _w, _s) = run_sm(p, cfg);
+    let mon = c15::monitor(&out);
+    (out, mon)
+}
+fn exec_c16(p: &Profile, cfg: &RunCfg) -> (RunOut, MonOut) {
+    let (out, _w, _s) = run_sm(p, cfg);
+    let mon = c16::monitor(&out);
+    (out, mon)
+}
+
+fn c15_batches(tier: &str) -> Vec<Batch> {
+    let mut p = c04_profile();
+    p.name = "c15".into();
+    p.apps_max = 4;
+    p.preset_permille = 400;
+    p.extra_fields_permille = 500;
+    p.policy.params_vary = 400;
+    p.url_variants = true;
+    p.bad_url_permille = 0;
+    p.clients_max = 2;
+    p.requests_max = 2;
+    p.installer.reboot = [0, 60, 40];
+    p.policy.reboot_allowed_permille = 300;
+    p.cup_permille = 300;
+    p.net.none = 800;
+    vec![Batch { name: "c15-main".into(), profile: p, runs: scale(tier, 15_000, 300_000), exec: exec_c15, strata: None }]
+}
+fn c16_batches(tier: &str) -> Vec<Batch> {
+    let mut p = c04_profile();
+    p.name = "c16".into();
+    p.cup_permille = 0;
+    p.apps_max = 3;
+    p.max_checks = 3;
+    p.net = NetRates {
+        none: 400,
+        transport: 10,
+        timeout: 0,
+        user: 0,
+        drop_response: 0,
+        status: 20,
+        body_garbage: 120,
+        body_bitflip: 200,
+        body_truncate: 80,
+        etag_tamper: 0,
+        replay: 30,
+        forged: 0,
+        byzantine_doc: 140,
+        duplicate: 0,
+        retry_after: 30,
+    };
+    p.srv.app_outcome = [25, 60, 5, 5, 5];
+    p.srv.big_size_permille = 400;
+    p.srv.extra_attrs_permille = 350;
+    p.srv.xssi_prefix_permille = 300;
+    p.installer.plan_fail_permille = 30;
+    p.policy.can_start = [70, 15, 15];
+    vec![Batch { name: "c16-main".into(), profile: p, runs: scale(tier, 20_000, 400_000), exec: exec_c16, strata: None }]
+}
+
 fn c01_batches(tier: &str) -> Vec<Batch> {
     vec![Batch { name: "c01-main".into(), profile: Profile::base("c01"), runs: scale(tier, 20_000, 600_000), exec: crate::cup::run_cup, strata: None }]
 }
@@ -617,6 +677,8 @@ pub fn all() -> Vec<PropDef> {
         def("C06", "per-attempt outcome sequences (stratified over the adversary alphabet^3 for the first check) with poll-interval interplay; entropy differential re-runs for jitter; a case is one completed check; distinct = attempt-outcome sequence x initial poll state", vec!["X-Retry-After reading per statement; '+N' either way"], c06_batches),
         def("C07", "header-value classes x status x request kind with probe restarts after every commit and real crashes; a case is one processed response; distinct = (old value, new value, status, request kind)", vec!["'+N' and duplicate headers: any listed reading accepted", "commit is atomic; reads see uncommitted writes"], c07_batches),
         def("C14", "hostile inputs combined with the flow: arbitrary/garbage/bit-flipped/truncated response bytes, statuses, header values, hostile initial storage (wrong types, negatives, i64/u32 extremes for every key), malformed service URLs, wall-clock jumps (backwards, pre-epoch, sub-microsecond, far future), metrics-sink errors, crashes, with a formatting tracing subscriber installed; plus differential re-runs (same seed, storage failures live vs off) comparing requests sent and events announced; a case is one run; distinct = set of fault kinds that fired", vec!["policy and installer answers conform to their contracts", "panic attribution: the executor marks when library code is running; a panic raised inside a dependency while the mark is set counts", "differential rule is evaluated within one lifetime (what is stored legitimately differs afterwards)"], c14_batches),
+        def("C15", "in situ: every request sent by whole-flow runs (update checks, retries, event reports, pings; 1-4 apps with presets, fingerprints, extra fields; varying request parameters; on-demand requests) is decoded at the simulated server and compared with an independently written encoder applied to the model state; distinct = (request kind, app count, parameters). Builder call sequences the state machine never issues (same id added twice with different cohorts) are out of reach and not claimed.", vec!["app state is taken from the arguments the policy engine received (their correctness is C09's subject)", "version strings are rebuilt from the configured components, not from the library's Display"], c15_batches),
+        def("C16", "in situ, CUP off: documents from the independent v3 response-grammar generator (apps in any order, unknown ids, all statuses, cohort fields absent vs empty, daystart forms, urls x packages, sizes up to 2^64-1, extension attributes, optional anti-XSSI prefix), byzantine documents (required field removed / wrongly typed), and garbage, truncated, bit-flipped and deeply nested bodies reach the parser through the state machine; the announced decode is compared with the document (or with an independent reading of the bytes); distinct = (tamper kind, grammaticality, announced)", vec!["serde_json::Value as the independent reading of arbitrary bytes", "only unarguably required fields are removed by the byzantine mutations"], c16_batches),
         def("C17", "the real client (RequestBuilder, CUP handler, parser, whole state machine) against the real mock_omaha_server::handle_request called in-process; service-URL variants, 1-3 apps, key configurations with latest/historical ids on either side, per-app response kinds, forced ETag, admin reconfigurations racing with exchanges; a case is one answered request; distinct = (configured kinds, cup, url)", vec!["requests outside the stated class (ping-only) are not sent in this profile", "the transport seam converts the absolute-form URI to origin-form, as an HTTP client does"], c17_batches),
         def("C18", "histories of install attempts (plan ids stable or fresh, per-app results, system app at any index, manifest version present or not) with crashes at drawn interactions, reboots into the target or another version and restart delays; metrics, call order and restart behaviour compared with a model of first-seen time, consecutive failed installs and the pending-reboot record; a case is one install or one restart; distinct = outcome signature", vec!["wall-clock jumps happen only between lifetimes; durations derived from a stored (microsecond) time are compared with 1 us tolerance", "an attempt cut by a crash may count or not", "when the system app is not part of the update the target version on record is not judged"], c18_batches),
         def("C19", "persistence path only: wall clocks at nanosecond granularity before/after the epoch, at and beyond the i64-microsecond limits, and hostile stored integers over the whole i64 range; every time the library stores (last contact, first seen, finish) must come back after a restart as the instant truncated toward the epoch at microsecond precision, be dropped exactly when it does not fit, and be presented and re-persisted unchanged when it was read from storage; exact (0 ns tolerance) duration comparisons; a case is one stored time round trip", vec!["the two-clock algebra and truncate_submicrosecond_walltime are pure functions reached by no simulated seam: not claimed (DESIGN.md 6.C19)"], c19_batches),
